@@ -33,6 +33,7 @@ ACTS = [
     ("setflag", "\\Seen"), ("addflag", "\\Seen"), ("removeflag", "\\Seen"), ("addflag", ["\\Seen", "\\Flagged"]),
     ("vacation", "gone"), ("vacation", ":subject", "s", ":days", 3, "gone"), ("vacation", ":seconds", 30, "gone"),
     ("vacation", ":from", "a@b", ":addresses", ["a@b", "c@d"], ":handle", "h", ":mime", "gone"),
+    ("vacation", ":days", 0, "gone"), ("vacation", ":seconds", 0, ":subject", "", "gone"),
 ]
 NC = len(CONDS)
 NA = len(ACTS)
